@@ -11,6 +11,13 @@ use std::collections::{BTreeMap, BTreeSet};
 const P: &str = "C10";
 
 pub fn check_lookups(ctx: &mut Ctx, out: &mut Outcome, what: &str, o: &Ontology, f: &FactSet, r: &mut Prng, full_sweep: bool) {
+    // any panic inside a lookup / iteration of a successfully built ontology is itself a violation of exactness
+    if let Err(p) = crate::obs::guarded(|| check_lookups_inner(ctx, out, what, o, f, r, full_sweep)) {
+        out.violate(P, "lookup-panics", format!("{what}: a lookup or iteration panicked: {p}"));
+    }
+}
+
+fn check_lookups_inner(ctx: &mut Ctx, out: &mut Outcome, what: &str, o: &Ontology, f: &FactSet, r: &mut Prng, full_sweep: bool) {
     let names: BTreeMap<u32, &str> = f.terms.iter().map(|t| (t.id, t.name.as_str())).collect();
     let mut probe: BTreeSet<u32> = BTreeSet::new();
     for &id in names.keys() {
